@@ -209,7 +209,7 @@ class World:
             for p in self.procs:
                 if p.slot == i and p.state == "alive":
                     p.state = "zombie"
-                    p.code = 0 if i in ev.get("exit0", ()) else 1
+                    p.code = 0 if i in ev.get("exit0", ()) else int((ev.get("codes") or {}).get(str(i), 1))
                     self.trace.append(["die", i, p.uid])
         for sg in ev.get("sig", ()):
             self.deliver(sg)
